@@ -89,6 +89,7 @@ impl World for WatermarkWorld {
                 "fault.clock_step_back",
                 "fault.clock_stall",
                 "fault.reordered_arrival",
+                "probe.delay_or_lateness_bound_of_a_second_or_more",
             ],
             quick_runs: 1_500_000,
             thorough_runs: 40_000_000,
@@ -153,6 +154,20 @@ impl World for WatermarkWorld {
             })
             .collect();
         let tick_pattern = if rng.chance(1, 4) { vec![*rng.pick(&[0u8, 1]), *rng.pick(&[0u8, 1, 2])] } else { vec![] };
+        // unit scale (swarm): the same history in ms, quarter seconds, seconds or hours — delays and
+        // lateness bounds of a second and more take other paths through `Duration` than 0..10 ms do.
+        // Periodic emission is tied to the processing clock and keeps its scale.
+        let scale = if matches!(wm, Wm::Periodic(_)) { 1 } else { *rng.pick(&[1u64, 1, 1, 1, 7, 250, 1000, 3_600_000]) };
+        let wm = match wm {
+            Wm::Bounded(d) => Wm::Bounded(d * scale),
+            w => w,
+        };
+        let late = match late {
+            Late::Allowed(m) => Late::Allowed(m * scale),
+            l => l,
+        };
+        let arrivals: Vec<Arrival> = arrivals;
+        let arrivals = arrivals.into_iter().map(|a| Arrival { ts: a.ts * scale, ..a }).collect();
         WmTrace { hash_seed, wm, late, arrivals, tick_pattern }
     }
 
@@ -176,6 +191,9 @@ impl World for WatermarkWorld {
         };
         let mut s = WatermarkedStream::new(strat, late);
         obs.faulty = t.arrivals.iter().any(|a| a.clock_adv <= 0) || !t.tick_pattern.is_empty();
+        if matches!(t.wm, Wm::Bounded(d) if d >= 1000) || matches!(t.late, Late::Allowed(m) if m >= 1000) {
+            obs.count("probe.delay_or_lateness_bound_of_a_second_or_more");
+        }
 
         // model
         let mut m_wm: u64 = 0;
@@ -391,17 +409,47 @@ impl World for WatermarkWorld {
             }
         }
         match t.wm {
-            Wm::Bounded(d) if d > 0 => out.push(WmTrace { wm: Wm::Bounded(d - 1), ..t.clone() }),
+            Wm::Bounded(d) if d > 0 => {
+                for nd in [d / 2, d / 1000 * 1000, d - 1] {
+                    if nd != d {
+                        out.push(WmTrace { wm: Wm::Bounded(nd), ..t.clone() });
+                    }
+                }
+            }
             Wm::Periodic(d) if d > 0 => out.push(WmTrace { wm: Wm::Periodic(d - 1), ..t.clone() }),
             _ => {}
         }
         if let Late::Allowed(m) = t.late {
             if m > 0 {
-                out.push(WmTrace { late: Late::Allowed(m - 1), ..t.clone() });
+                for nm in [m / 2, m / 1000 * 1000, m - 1] {
+                    if nm != m {
+                        out.push(WmTrace { late: Late::Allowed(nm), ..t.clone() });
+                    }
+                }
             }
         }
         if t.hash_seed != 1 {
             out.push(WmTrace { hash_seed: 1, ..t.clone() });
+        }
+        // the whole history in a smaller unit
+        if !matches!(t.wm, Wm::Periodic(_)) {
+            for k in [3_600_000u64, 1000, 250, 7, 2] {
+                let d = if let Wm::Bounded(d) = t.wm { d } else { 0 };
+                let m = if let Late::Allowed(m) = t.late { m } else { 0 };
+                if d % k == 0 && m % k == 0 && t.arrivals.iter().all(|a| a.ts % k == 0) && (d > 0 || m > 0 || t.arrivals.iter().any(|a| a.ts > 0)) {
+                    let mut c = t.clone();
+                    if let Wm::Bounded(d) = &mut c.wm {
+                        *d /= k;
+                    }
+                    if let Late::Allowed(m) = &mut c.late {
+                        *m /= k;
+                    }
+                    for a in c.arrivals.iter_mut() {
+                        a.ts /= k;
+                    }
+                    out.insert(0, c);
+                }
+            }
         }
         out
     }
